@@ -615,6 +615,26 @@ class _Fold(ast.NodeTransformer):
         if isinstance(t, ast.UnaryOp) and isinstance(t.op, ast.Not):
             v = self._truth(t.operand)
             return None if v is None else (not v)
+        if isinstance(t, ast.BoolOp):
+            vs = [self._truth(x) for x in t.values]
+            if isinstance(t.op, ast.And):
+                # operands are evaluated left to right: a false operand decides once everything before it is known (no side effect is skipped that was not skipped before)
+                for k_, v_ in enumerate(vs):
+                    if v_ is False and all(x is not None for x in vs[:k_]):
+                        return False
+                    if v_ is None:
+                        break
+                if all(v_ is True for v_ in vs):
+                    return True
+            else:
+                for k_, v_ in enumerate(vs):
+                    if v_ is True and all(x is not None for x in vs[:k_]):
+                        return True
+                    if v_ is None:
+                        break
+                if all(v_ is False for v_ in vs):
+                    return False
+            return None
         if isinstance(t, ast.Compare) and len(t.ops) == 1:
             ok1, a = self._const(t.left)
             ok2, b = self._const(t.comparators[0])
@@ -644,10 +664,22 @@ class _Fold(ast.NodeTransformer):
             return node
         return node.body if v else node.orelse
 
+    def _drop_known(self, t):
+        """`True and X` -> X, `X or False` -> X: operands whose value is known and neutral leave the test"""
+        if isinstance(t, ast.BoolOp):
+            neutral = isinstance(t.op, ast.And)
+            vals = [self._drop_known(x) for x in t.values]
+            vals = [x for x in vals if self._truth(x) is not neutral]
+            if not vals:
+                return ast.copy_location(ast.Constant(value=neutral), t)
+            return vals[0] if len(vals) == 1 else ast.copy_location(ast.BoolOp(op=t.op, values=vals), t)
+        return t
+
     def visit_If(self, node):
         self.generic_visit(node)
         v = self._truth(node.test)
         if v is None:
+            node.test = self._drop_known(node.test)
             return node
         keep_ = node.body if v else node.orelse
         return keep_ or ast.copy_location(ast.Pass(), node)
